@@ -347,12 +347,6 @@ def needed(case, stored, target):
     return loaders, computed
 
 
-def two_kind_nodes(case, stored, target):
-    _, computed = needed(case, stored, target)
-    return [n for n in case["nodes"] if set(n["outs"]) & computed
-            and len({case["kinds"][d] for d in n["deps"]}) > 1]
-
-
 # ============================================================================= running the REAL pipeline
 def _guard(f):
     """-> (value, None) or (None, (ErrKind, message))"""
@@ -374,6 +368,7 @@ def _chunk_tuple(t, c):
     return [int(c.start), int(c.end), rows_of(t, c.data)]
 
 
+OVERLOAD = 1.5      # load average per core above which a single mailbox timeout is not taken as evidence of a deadlock
 TIMEOUTISH = ("MailboxFullTimeout", "MailboxReadTimeout", "did not terminate", "timed out")
 
 
@@ -389,48 +384,127 @@ def _lazy_phase(case, res):
 
 
 def run_case(case):
-    """run the case; triage an error of the threaded processor before it is judged:
-    (1) the same case under the single-thread processor gives the root cause (an exception raised inside a plugin
-        thread reaches the caller late or as `Thread … did not terminate`, which is C06's business);
-    (2) a mailbox timeout that has no root cause is tried once more with three times the timeout (at least 75 s), so that a stall of
-        the machine is not reported as a deadlock (a genuine deadlock times out again and is reported);
-    (3) in lazy mode the case is first run with allow_lazy=False (open finding: lazy-mode deadlock of a multi-output
-        plugin whose outputs are both needed)."""
+    """run the case ONCE for the verdict; a failure is then only classified, never replaced:
+    (1) a failure of the threaded processor: the same case under the single-thread processor gives the root cause (an
+        exception raised inside a plugin thread reaches the caller late or as `Thread … did not terminate`);
+    (2) a mailbox timeout in lazy mode: the same case with allow_lazy=False (open finding lazy-multi-output-lag-deadlock);
+    (3) a failure whose text is that of D9 / D16: the streams that feed the failing plugin are recorded, so that the
+        judge can ask the C08 model whether ten passes really do not suffice / look for the trailing zero-duration chunk.
+    Mailbox timeouts without root cause are re-run later by the parent on an idle pool (`rerun_timeouts`)."""
     res = run_case_once(case)
-    if res["phase"] == "adapter" or not res["line"].startswith("err") or not _threaded_phase(case, res):
+    if res["phase"] == "adapter" or not res["line"].startswith("err"):
         return res
-    single = json.loads(json.dumps(case))
-    single["cfg"]["proc"] = single["prep_cfg"]["proc"] = "single_thread"
-    root = run_case_once(single)
-    res["root_exc"] = root["exc"] if root["line"].startswith("err") else None
-    if res["root_exc"] is None and any(k in (res["exc"] or "") for k in TIMEOUTISH):
-        if _lazy_phase(case, res):
-            # (3) a timeout in lazy mode: the same case with allow_lazy=False tells a lazy-mode deadlock apart (a
-            # lazy-mode deadlock always takes the full timeout, so this comes before the long retry)
+    res["load"] = round(os.getloadavg()[0] / (os.cpu_count() or 1), 2)
+    if _threaded_phase(case, res):
+        single = json.loads(json.dumps(case))
+        single["cfg"]["proc"] = single["prep_cfg"]["proc"] = "single_thread"
+        root = run_case_once(single)
+        res["root_exc"] = root["exc"] if root["line"].startswith("err") else None
+        res["root_line"] = root["line"] if root["line"].startswith("err") else None
+        if res["root_exc"] is None and is_timeout(res) and _lazy_phase(case, res):
             eager = json.loads(json.dumps(case))
             eager["cfg"]["lazy"] = eager["prep_cfg"]["lazy"] = False
             res["eager_ok"] = not run_case_once(eager)["line"].startswith("err")
-            if res["eager_ok"] and _both_outputs_needed(case, res):
-                return res
-        slow = json.loads(json.dumps(case))
-        for key in ("cfg", "prep_cfg"):
-            slow[key]["timeout"] = max(75, 3 * slow[key]["timeout"])
-        again = run_case_once(slow)
-        again["retried_after"] = res["exc"]
-        again["root_exc"] = None
-        again["eager_ok"] = res.get("eager_ok")
-        return again
+    text = (res["exc"] or "") + str(res.get("root_exc"))
+    if TEN_PASS in text or UNFETCHED in text:
+        res["fail_streams"], err = _guard(lambda: failing_inputs(case, res, text))
+        if err:
+            res["fail_streams"] = dict(error=err[1])
     return res
 
 
-def _both_outputs_needed(case, res):
+def is_timeout(res):
+    return any(k in (res["exc"] or "") for k in TIMEOUTISH)
+
+
+def _phase_of(case, res):
+    """(cfg, stored set, target, twin?) of the phase in which the run failed"""
     if res["phase"] == "prep":
         step = res["prep"][-1]
-        stored, tgt = set(step["stored_before"]), step["target"]
-    else:
-        stored, tgt = set(case["stored"]), case["target"]
+        return case["prep_cfg"], set(step["stored_before"]), step["target"], True
+    return case["cfg"], set(case["stored"]), case["target"], False
+
+
+def failing_inputs(case, res, text):
+    """the chunk streams of the data types named by a D9 / D16 error text, as the single-thread processor delivers them
+    in the phase that failed: {"plugin": first output of the failing plugin or None, "streams": {data type: chunks}}"""
+    import re
+    _cfg, stored, _tgt, twin_phase = _phase_of(case, res)
+    names = set()
+    plugin = None
+    m = re.search(r"P_(\w+) was unable to get time-consistent", text)
+    if m:
+        plugin = m.group(1)
+        node = next((n for n in case["nodes"] if n["outs"][0] == plugin), None)
+        if node:
+            names |= set(node["deps"])
+    for m in re.finditer(r"Plugin (\w+) terminated without fetching last", text):
+        names.add(m.group(1))
+    names = sorted(n for n in names if n in case["kinds"])
+    d = tempfile.mkdtemp(prefix="c01_", dir=os.environ.get("VERIF_C01_TMP") or None)
+    out = {}
+    try:
+        with contextlib.redirect_stdout(io.StringIO()):
+            single = dict(case["prep_cfg"], proc="single_thread", workers=None)
+            twin = new_context(case, d, single, build_classes(case, twin_store=set(case["stored"]), phase="prep"))
+            for t in case["stored"]:
+                if t in stored:
+                    twin.make(RUN, t, processor="single_thread")
+            st = twin if twin_phase else new_context(case, d, dict(case["cfg"], proc="single_thread", workers=None),
+                                                     build_classes(case))
+            for t in names:
+                ch, err = _guard(lambda: [_chunk_tuple(t, c) for c in
+                                          st.get_iter(RUN, t, processor="single_thread", progress_bar=False)])
+                out[t] = ch if err is None else None
+    finally:
+        shutil.rmtree(d, ignore_errors=True)
+    return dict(plugin=plugin, streams=out)
+
+
+def _both_outputs_reconverge(case, res):
+    """a computed multi-output plugin both of whose outputs are consumed by plugins whose results meet again downstream
+    (or are requested together): the shape of the open finding lazy-multi-output-lag-deadlock"""
+    _cfg, stored, tgt, _twin = _phase_of(case, res)
     _, computed = needed(case, stored, tgt)
-    return [n for n in case["nodes"] if len(n["outs"]) > 1 and len(set(n["outs"]) & computed) > 1]
+    nodes = [n for n in case["nodes"] if set(n["outs"]) & computed]
+    tl = targets_of(tgt)
+    consumers = nodes + ([dict(deps=tl, outs=["_temp"])] if len(tl) > 1 else [])
+    prov = {o: n for n in nodes for o in n["outs"]}
+
+    def ancestors(t, seen=None):           # data types `t` is computed from (through computed plugins only)
+        seen = set() if seen is None else seen
+        if t in prov:
+            for dd in prov[t]["deps"]:
+                if dd not in seen:
+                    seen.add(dd)
+                    ancestors(dd, seen)
+        return seen
+    for n in nodes:
+        if len(n["outs"]) > 1 and len(set(n["outs"]) & computed) > 1:
+            a, b = n["outs"][0], n["outs"][1]
+            for u in consumers:
+                up = set(u["deps"])
+                for dd in u["deps"]:
+                    up |= ancestors(dd)
+                if a in up and b in up:
+                    return f"{a}+{b}"
+    return None
+
+
+@contextlib.contextmanager
+def recording_post_office(rec):
+    """every message the single-thread message bus produces, per topic (rebinding a method of strax.processors.post_office)"""
+    from strax.processors import post_office as po
+    orig = po.PostOffice._ack_msg_produced
+
+    def wrapped(self, msg, topic):
+        rec.setdefault(topic, []).append(msg)
+        return orig(self, msg, topic)
+    po.PostOffice._ack_msg_produced = wrapped
+    try:
+        yield
+    finally:
+        po.PostOffice._ack_msg_produced = orig
 
 
 def run_case_once(case):
@@ -470,22 +544,29 @@ def run_case_once(case):
             tgts = targets_of(case["target"])
             tgt = tgts[0] if len(tgts) == 1 else tuple(tgts)
             t0 = time.time()
-            if case["mode"] == "array":
-                arr, err = _guard(lambda: st.get_array(RUN, tgt, max_workers=cfg["workers"], processor=cfg["proc"],
-                                                       progress_bar=False))
-                rows = rows_multi(tgts, arr) if err is None else None
-            else:
-                chunks, err = _guard(lambda: [[int(c.start), int(c.end), rows_multi(tgts, c.data)] for c in
-                                              st.get_iter(RUN, tgt, max_workers=cfg["workers"], processor=cfg["proc"],
-                                                          progress_bar=False)])
-                rows = [r for c in chunks for r in c[2]] if err is None else None
-                res["chunks"] = chunks
+            rec = {}
+            hook = recording_post_office(rec) if cfg["proc"] == "single_thread" else contextlib.nullcontext()
+            with hook:
+                if case["mode"] == "array":
+                    arr, err = _guard(lambda: st.get_array(RUN, tgt, max_workers=cfg["workers"], processor=cfg["proc"],
+                                                           progress_bar=False))
+                    rows = rows_multi(tgts, arr) if err is None else None
+                else:
+                    chunks, err = _guard(lambda: [[int(c.start), int(c.end), rows_multi(tgts, c.data)] for c in
+                                                  st.get_iter(RUN, tgt, max_workers=cfg["workers"], processor=cfg["proc"],
+                                                              progress_bar=False)])
+                    rows = [r for c in chunks for r in c[2]] if err is None else None
+                    res["chunks"] = chunks
             res["elapsed"] = time.time() - t0
             if err:
                 res.update(line="err " + err[0], exc=err[1])
                 return res
             res["rows"] = rows
             res["line"] = "ok " + show_line(tgts, rows)
+            if cfg["proc"] == "single_thread":
+                # what the message bus delivered per data type (for the comparison with `Pipeline.exec`)
+                res["streams"] = {t: [_chunk_tuple(t, c) for c in cs] for t, cs in rec.items()
+                                  if t in case["kinds"] and all(isinstance(c, strax.Chunk) for c in cs)}
             # ---- whatever is in storage now, re-read by a fresh context
             fresh = new_context(case, d, dict(cfg, lazy=True, mm=4), build_classes(case))
             for t in case["kinds"]:
@@ -514,56 +595,94 @@ def shape_of(msg):
     return None
 
 
-def trailing_zero(case, phases):
-    """some source chunking used in these phases ends with a zero-duration chunk after a non-empty prefix"""
-    for s in case["srcs"]:
-        for key in phases:
-            ch = s[key]
-            if len(ch) > 1 and ch[-1][0] == ch[-1][1]:
-                return True
-    return False
-
-
-def multi_dep_nodes(case, stored, target):
-    _, computed = needed(case, stored, target)
-    multi = [n for n in case["nodes"] if set(n["outs"]) & computed and len(n["deps"]) > 1]
-    # several targets are merged by a temporary MergeOnlyPlugin that depends on all of them
-    return multi + (["temporary merge plugin"] if len(targets_of(target)) > 1 else [])
-
-
-def judge(case, res):
-    """None if the property holds on this run, else a message.  Messages starting with `D9-shape` / `D16-shape` are built
-    only when the failure has exactly the shape of the corresponding open defect.  (D13 is fixed in /repo: a failure
-    of a multi-output plugin with a loader-fed sibling under the threaded processor is an ordinary violation again.)"""
+def judge(case, res, model=None):
+    """None if the property holds on this run, else a message.  `model` pipes op lines to the Lean driver (needed to
+    confirm the shape of D9).  Messages starting with `D9-shape` / `D16-shape` / `LZ-shape` are built only when the
+    failing input has exactly the shape of the corresponding open finding:
+      D9   the C08 model of Plugin.iter, run on the very streams that fed the failing plugin, says that ten passes do not
+           suffice although more would (`passesSufficeB` false on law-abiding inputs that start together);
+      D16  a stream that feeds the failing plugin (the one the message names) ends with a zero-duration chunk;
+      LZ   lazy threaded run, a computed multi-output plugin BOTH of whose outputs are consumed by plugins that meet
+           again downstream, mailbox timeout, and the same case with allow_lazy=False and under single_thread passes.
+    Every other failure - in particular any other failure with the same exception text - is a violation."""
     if res["phase"] == "adapter":
         raise RuntimeError("adapter crashed: " + str(res["exc"]))
     if res["expect"] is None:
         raise RuntimeError("oracle crashed: " + str(res["oracle_exc"]))
-    if res["phase"] == "prep":
-        step = res["prep"][-1]
-        cfg, stored, tgt, where = case["prep_cfg"], set(step["stored_before"]), step["target"], f"twin context making {step['target']}"
-    else:
-        cfg, stored, tgt, where = case["cfg"], set(case["stored"]), case["target"], f"{case['mode']} of {case['target']}"
-    return _judge(case, res, cfg, stored, tgt, where)
+    cfg, stored, tgt, twin = _phase_of(case, res)
+    where = f"twin context making {tgt}" if twin else f"{case['mode']} of {case['target']}"
+    return _judge(case, res, cfg, stored, tgt, where, model)
 
 
-def _judge(case, res, cfg, stored, tgt, where):
+def op_iter(case, deps, streams, strict):
+    """the C08 model of Plugin.iter on the recorded input streams of one plugin"""
+    toks = " ".join(";".join([d, case["kinds"][d]] + [f"{a}~{b}~{sl.show_rows([tuple(r) for r in rows])}"
+                                                      for a, b, rows in streams[d]]) for d in deps)
+    return f"c08.iter {int(strict)} {toks}"
+
+
+def op_passes(case, node, streams, strict):
+    deps = " ".join(";".join([d, case["kinds"][d]] + [f"{a}~{b}~{sl.show_rows([tuple(r) for r in rows])}"
+                                                      for a, b, rows in streams[d]]) for d in node["deps"])
+    return f"c08.hyp {int(strict)} {case['span'][0]} {deps}"
+
+
+def _judge(case, res, cfg, stored, tgt, where, model):
     exp = res["expect"]
     line, exc = res["line"], (res["exc"] or "") + " | root cause under single_thread: " + str(res.get("root_exc"))
     if line.startswith("err"):
-        if TEN_PASS in exc and two_kind_nodes(case, stored, tgt):
-            return (f"D9-shape: {where}: Plugin.iter of a plugin with dependencies of different kinds gave up "
-                    f"(RuntimeError: unable to get time-consistent inputs after ten passes) instead of returning the whole-run rows")
-        phases = ["prep_chunks"] if res["phase"] == "prep" else (["chunks", "prep_chunks"] if case["stored"] else ["chunks"])
-        if UNFETCHED in exc and multi_dep_nodes(case, stored, tgt) and trailing_zero(case, phases):
-            return (f"D16-shape: {where}: a stream ends with a zero-duration chunk and Plugin.iter of a plugin with several "
-                    f"dependencies raised RuntimeError 'terminated without fetching last' instead of returning the whole-run rows")
-        both = _both_outputs_needed(case, res)
-        if (res.get("eager_ok") and res.get("root_exc") is None and _lazy_phase(case, res) and both
-                and any(k in exc for k in ("MailboxReadTimeout", "did not terminate"))):
-            return (f"LZ-shape: {where}: lazy threaded_mailbox, both outputs {'+'.join(both[0]['outs'])} of a multi-output plugin are "
-                    f"needed and one consumer runs ahead of the other: MailboxReadTimeout (deadlock; the same case with "
-                    f"allow_lazy=False and with the single-thread processor returns the whole-run rows)")
+        fs = res.get("fail_streams") or {}
+        streams = fs.get("streams") or {}
+        _, computed = needed(case, stored, tgt)
+        twin = res["phase"] == "prep"
+        if TEN_PASS in exc and fs.get("plugin") and model is not None:
+            node = next((n for n in case["nodes"] if n["outs"][0] == fs["plugin"]), None)
+            if node and set(node["outs"]) & computed and all(streams.get(d) for d in node["deps"]):
+                if twin:
+                    strict = any(o in case["stored"] for o in node["outs"])
+                else:
+                    strict = any(p in ("T", "A") for p in node["save"])
+                ans = model([op_passes(case, node, streams, strict)])[0]
+                if ans.startswith("ok") and "passes=0" in ans and "start=1" in ans and "law=" in ans \
+                        and "0" not in ans.split("law=")[1].split(" ")[0]:
+                    res["model_op"] = op_iter(case, node["deps"], streams, strict)
+                    return (f"D9-shape: {where}: Plugin.iter of {node['kind']}({','.join(node['deps'])}) gave up (RuntimeError: unable "
+                            f"to get time-consistent inputs after ten passes); the C08 model confirms on the streams that fed it that "
+                            f"ten passes do not suffice although more would")
+        if UNFETCHED in exc:
+            import re
+            named = set(re.findall(r"Plugin (\w+) terminated without fetching last", exc))
+            readers = [n for n in case["nodes"] if set(n["outs"]) & computed and len(n["deps"]) > 1]
+            tl = targets_of(tgt)
+            multi_deps = {d for n in readers for d in n["deps"]} | (set(tl) if len(tl) > 1 else set())
+            hit = [d for d in sorted(named) if d in multi_deps and streams.get(d) and len(streams[d]) > 1
+                   and streams[d][-1][0] == streams[d][-1][1]]
+            if hit:
+                rd = next((n for n in readers if hit[0] in n["deps"] and all(streams.get(d) for d in n["deps"])), None)
+                if rd is not None:
+                    strict = any(o in case["stored"] for o in rd["outs"]) if twin else any(p in ("T", "A") for p in rd["save"])
+                    res["model_op"] = op_iter(case, rd["deps"], streams, strict)
+                elif len(tl) > 1 and all(streams.get(d) for d in tl):
+                    res["model_op"] = op_iter(case, tl, streams, False)       # the temporary MergeOnlyPlugin is EXPLICIT
+                return (f"D16-shape: {where}: the stream of {hit[0]} ends with the zero-duration chunk "
+                        f"[{streams[hit[0]][-1][0]},{streams[hit[0]][-1][1]}) and Plugin.iter of a plugin with several dependencies "
+                        f"that reads it raised RuntimeError 'terminated without fetching last {hit[0]}'")
+        if is_timeout(res) and res.get("root_exc") is None and _threaded_phase(case, res):
+            both = _both_outputs_reconverge(case, res)
+            if res.get("eager_ok") and _lazy_phase(case, res) and both:
+                return (f"LZ-shape: {where}: lazy threaded_mailbox, both outputs {both} of a multi-output plugin are consumed by "
+                        f"plugins that meet again downstream: mailbox timeout (deadlock; the same case with allow_lazy=False and "
+                        f"with the single-thread processor returns the whole-run rows)")
+            reruns = res.get("reruns")
+            if reruns is not None:
+                k = sum(1 for r in reruns if r.startswith("err"))
+                tail = (f"; {k} of {len(reruns)} re-runs on the idle pool with the same timeout failed as well ({', '.join(reruns)[:120]}); "
+                        f"load per core at the failure {res.get('load')}")
+                if k == 0 and (res.get("load") or 0) > OVERLOAD:
+                    res["noted"] = (f"{brief(case)}: {line} ({(res['exc'] or '')[:80]}) on an overloaded machine (load per core "
+                                    f"{res.get('load')}), not reproduced in {len(reruns)} re-runs on the idle pool")
+                    return None
+                return f"{where} raised {exc[:200]} instead of returning the whole-run rows{tail}"
         return f"{where} raised {exc[:300]} instead of returning the whole-run rows"
     tgts = targets_of(tgt)
     want = expected_rows(exp, tgts)
@@ -901,21 +1020,77 @@ def brief(case):
 
 
 # ============================================================================= ops for the Lean driver
+def _params(n):
+    k = n["kind"]
+    if k in ("map", "pairfirst", "downchunk", "exhaust"):
+        return str(n["c"])
+    if k == "filter":
+        return f"{n['m']},{n['r']}"
+    if k == "multi":
+        return f"{n['c']},{n['m']},{n['r']}"
+    if k == "overlap":
+        return str(n["w"])
+    return ""
+
+
 def op_whole(case):
-    def params(n):
-        k = n["kind"]
-        if k in ("map", "pairfirst", "downchunk", "exhaust"):
-            return str(n["c"])
-        if k == "filter":
-            return f"{n['m']},{n['r']}"
-        if k == "multi":
-            return f"{n['c']},{n['m']},{n['r']}"
-        if k == "overlap":
-            return str(n["w"])
-        return ""
-    g = ";".join(f"{n['kind']}:{params(n)}:{','.join(n['deps'])}:{','.join(n['outs'])}" for n in case["nodes"])
+    g = ";".join(f"{n['kind']}:{_params(n)}:{','.join(n['deps'])}:{','.join(n['outs'])}" for n in case["nodes"])
     srcs = " ".join(f"{s['name']}={sl.show_rows([tuple(r) for r in s['rows']])}" for s in case["srcs"])
     return f"c01.whole {g} {case['target']} {srcs}"
+
+
+def exec_case(case, res):
+    """the part of a successful single-thread run that `Pipeline.exec` models: computed nodes (no down-chunking plugin: the
+    harness one cuts its pieces by a rule of its own), sources and loader-fed types as the bus delivered them"""
+    if case["cfg"]["proc"] != "single_thread" or "," in case["target"] or not res.get("streams") \
+            or not res["line"].startswith("ok"):
+        return None
+    loaders, computed = needed(case, set(case["stored"]), case["target"])
+    nodes = [n for n in case["nodes"] if set(n["outs"]) & computed]
+    if not nodes or any(n["kind"] == "downchunk" for n in nodes):
+        return None
+    st = res["streams"]
+    provided = {o for n in nodes for o in n["outs"]}
+    srcs = {s["name"]: s["chunks"] for s in case["srcs"]}
+    env = {}
+    for n in nodes:
+        for d in n["deps"]:
+            if d in provided:
+                continue
+            if d in srcs:
+                env[d] = srcs[d]
+            elif d in st:
+                env[d] = st[d]              # loaded from storage
+            else:
+                return None
+    stored = {o: st[o] for o in provided if o in loaders and o in st}
+    shown = [o for n in nodes for o in n["outs"] if o in st]
+    if not shown:
+        return None
+    return dict(nodes=nodes, kinds=case["kinds"], span=case["span"], env=env, stored=stored, shown=shown,
+                real={o: st[o] for o in shown})
+
+
+def _stream_tok(name, chunks, ids_only=False):
+    def one(c):
+        a, b, rows = c
+        body = (",".join(str(r[2]) for r in rows) if rows else "-") if ids_only else sl.show_rows([tuple(r) for r in rows])
+        return f"{a}~{b}~{body}"
+    return f"{name}=" + (";".join(one(c) for c in chunks) if chunks else "-")
+
+
+def op_exec(ec):
+    g = ";".join(f"{n['kind']}:{_params(n)}:{','.join(n['deps'])}:{','.join(n['outs'])}" for n in ec["nodes"])
+    strict = ",".join(str(int(any(p in ("T", "A") for p in n["save"]))) for n in ec["nodes"])
+    kinds = ",".join(f"{k}:{v}" for k, v in sorted(ec["kinds"].items()))
+    env = " ".join(_stream_tok(k, v) for k, v in sorted(ec["env"].items()))
+    stored = " ".join(_stream_tok(k, v) for k, v in sorted(ec["stored"].items()))
+    return (f"c01.exec {g} {strict} {kinds} {','.join(ec['shown'])} {ec['span'][0]} {ec['span'][1]} {env} |"
+            + (" " + stored if stored else ""))
+
+
+def impl_exec(ec):
+    return "ok " + " ".join(_stream_tok(o, ec["real"][o], ids_only=True) for o in ec["shown"])
 
 
 def op_law(lc):
@@ -1050,6 +1225,41 @@ def run_pool(cases, workers, budget_s, note=None, stall_s=400, dead_s=150):
 
 
 # ============================================================================= the check
+def needs_rerun(case, res):
+    return (not res.get("hang") and res["phase"] != "adapter" and res["line"].startswith("err") and is_timeout(res)
+            and res.get("root_exc") is None and _threaded_phase(case, res)
+            and not (res.get("eager_ok") and _lazy_phase(case, res) and _both_outputs_reconverge(case, res)))
+
+
+def short(line):
+    return "ok" if line.startswith("ok") else line
+
+
+def _rerun_worker(case):
+    _quiet()
+    return [short(run_case_once(case)["line"]) for _ in range(3)]
+
+
+def rerun_timeouts(cases, results, idx):
+    """three re-runs of each case, one case at a time, original timeout"""
+    if not idx:
+        return
+    import multiprocessing as mp
+    pool = mp.get_context("fork").Pool(1)
+    try:
+        for i in idx:
+            try:
+                out = pool.apply_async(_rerun_worker, (cases[i],)).get(timeout=400)
+                results[i]["reruns"] = list(out)
+            except mp.TimeoutError:
+                results[i]["reruns"] = ["err Hang"] * 3
+                pool.terminate()
+                pool = mp.get_context("fork").Pool(1)
+    finally:
+        pool.terminate()
+        pool.join()
+
+
 def nontrivial_case(case, res):
     rows = res.get("rows") or []
     return bool(rows) and (any(len(s["chunks"]) > 1 for s in case["srcs"]) or bool(case["stored"])
@@ -1096,13 +1306,24 @@ def run(ctx):
     workers = int(os.environ.get("VERIF_C01_WORKERS", "8"))
     results = run_pool(cases, workers, ctx.pick(100, 1000), note=ctx.note)
     done = [i for i in range(len(cases)) if i in results]
+    # mailbox timeouts that have no root cause: the first failure stays the verdict; three re-runs with the same timeout
+    # on the now idle pool only say how reproducible it is
+    timeouts = [i for i in done if needs_rerun(cases[i], results[i])]
+    rerun_timeouts(cases, results, timeouts)
     msgs = {}
     for i in done:
         res = results[i]
         if res.get("hang"):
             msgs[i] = f"{brief(cases[i])}: the run hung ({res['exc']})"
         else:
-            msgs[i] = judge(cases[i], res)
+            msgs[i] = judge(cases[i], res, model=ctx.driver.run)
+    if timeouts:
+        ctx.note(f"{len(timeouts)} runs ended in a mailbox timeout without a single-thread root cause on the first attempt: "
+                 + "; ".join(f"#{i} {results[i]['line']} re-runs {results[i].get('reruns')} load/core {results[i].get('load')}"
+                             for i in timeouts[:12]))
+    for i in done:
+        if results[i].get("noted"):
+            ctx.note("timeout not counted as a violation: " + results[i]["noted"])
     stats = ctx.comp("e2e").branch_hits
     for i in done:
         for n in cases[i]["nodes"]:
@@ -1117,8 +1338,8 @@ def run(ctx):
             stats["with-twin-prep"] += 1
         if results[i].get("saved"):
             stats["storage-read-back"] += 1
-        if results[i].get("retried_after"):
-            stats["retried-after-mailbox-timeout"] += 1
+        if results[i].get("reruns") is not None:
+            stats["mailbox-timeout-first-attempt"] += 1
         if "root_exc" in results[i]:
             stats["threaded-error-rerun-single-thread"] += 1
     rule = ("random DAGs of 2-6 data types over 1-2 independently chunked sources x processor x max_workers x lazy x "
@@ -1127,15 +1348,28 @@ def run(ctx):
             "pre-stored, or the threaded processor is used)")
     groups = {}
     for i in done:
-        groups.setdefault(shape_of(msgs[i]) or ("d13-corpus" if cases[i].get("corpus") else ""), []).append(i)
+        groups.setdefault(shape_of(msgs[i]) or ("overload-timeout" if results[i].get("noted") else
+                                                ("d13-corpus" if cases[i].get("corpus") else "")), []).append(i)
     for tag, idx in sorted(groups.items()):
         name = "e2e" if not tag else "e2e/" + tag
         sub = [dict(cases[i], _i=i) for i in idx]
-        ctx.correspond(name, sub, impl=lambda c: results[c["_i"]]["line"], to_op=op_whole,
+        if tag in ("D9-shape", "D16-shape"):
+            # the model side of these findings is the C08 model of Plugin.iter on the streams that fed the failing plugin:
+            # it must raise the same error kind as the root cause
+            impl_line = lambda c: results[c["_i"]].get("root_line") or results[c["_i"]]["line"]    # noqa: E731
+            to_op = lambda c: results[c["_i"]].get("model_op")                                    # noqa: E731
+        elif tag in ("LZ-shape", "overload-timeout"):
+            # lazy scheduling is outside this theory (C13); a single timeout on an overloaded machine that three re-runs on
+            # the idle pool do not reproduce is noted in the evidence, not compared with the model
+            impl_line, to_op = (lambda c: results[c["_i"]]["line"]), None
+        else:
+            impl_line, to_op = (lambda c: results[c["_i"]]["line"]), op_whole
+        ctx.correspond(name, sub, impl=impl_line, to_op=to_op,
                        oracle=lambda c, o: msgs[c["_i"]],
                        nontrivial=lambda c, o: nontrivial_case(c, results[c["_i"]]),
                        branch=lambda c, o: branch_of(c, results[c["_i"]]), rule=rule,
                        in_hyp=lambda c, o: not o.startswith("err"))
+    run_exec_correspondence(ctx, cases, results, done)
     # the property's second sentence, evaluated by the harness and by the model's predicate on what was yielded / stored
     law_cases = []
     for i in done:
@@ -1154,13 +1388,39 @@ def run(ctx):
                         "model = `lawAbidingB` / `span` / `lawAbidingGlobalB`; non-trivial = > 1 chunk and some rows")
 
 
+def run_exec_correspondence(ctx, cases, results, done):
+    """the CHUNKED semantics: `Pipeline.exec` (identity transports, `Plugin.iter` as aligner, the vocabulary kernels, stored
+    outputs overriding) on the very chunking of each successful single-thread run, against the chunk streams the
+    PostOffice delivered per data type (boundaries and row ids)"""
+    ecs = [ec for i in done if not results[i].get("hang") for ec in [exec_case(cases[i], results[i])] if ec]
+    if not ecs or not ctx.model_available:
+        return
+    answers = ctx.driver.run([op_exec(ec) for ec in ecs])
+    keep = [ec for ec, a in zip(ecs, answers) if a != "skip"]
+    skipped = len(ecs) - len(keep)
+    if skipped:
+        ctx.note(f"exec correspondence: {skipped} of {len(ecs)} eligible runs lie outside the guard of Aligner.iter "
+                 f"(C08's domain: e.g. a trailing zero-duration chunk) and are not compared")
+    ctx.correspond("exec", keep, impl=impl_exec, to_op=op_exec,
+                   nontrivial=lambda c, o: any(len(v) > 1 for v in c["real"].values()),
+                   branch=lambda c, o: "+".join(sorted({n["kind"] for n in c["nodes"]})) + ("/stored" if c["stored"] else ""),
+                   rule="successful single-thread runs without a down-chunking plugin and with one target: impl = per computed "
+                        "data type the chunk stream the PostOffice delivered (recorded by rebinding _ack_msg_produced), model = "
+                        "driver `c01.exec` = Pipeline.exec on the same source chunking and loader streams (Transport.ident, "
+                        "Aligner.iter / single / exhaust, Vocab.kernelOf, override); non-trivial = some stream has > 1 chunk")
+
+
 def replay(ctx, body):
     case = (body.get("case") or {}).get("case")
     if not isinstance(case, dict):
+        return None
+    if "real" in case:               # an `exec` case: model and implementation only
         return None
     if "nodes" not in case:          # a `law` case
         out = impl_law(case)
         return None if out == "ok law=1 span=1 global=1" else f"chunk sequence breaks the laws of chunking: {out}"
     _quiet()
     res = run_case(case)
-    return judge(case, res)
+    if needs_rerun(case, res):
+        res["reruns"] = [short(run_case_once(case)["line"]) for _ in range(3)]
+    return judge(case, res, model=ctx.driver.run)
